@@ -44,8 +44,10 @@ document(
 
 
 def _is_clifford_circuit(program: cirq.Circuit) -> bool:
+    # The Clifford simulator works on qubits only.
     return all(
         clifford_simulator.CliffordSimulator.is_supported_operation(op)
+        and all(q.dimension == 2 for q in op.qubits)
         for op in program.all_operations()
     )
 
